@@ -110,6 +110,11 @@ impl AffineRepr for AffinePoint {
         }
     }
 
+    fn is_zero(&self) -> bool {
+        // Both representatives of the identity coset, (0, 1) and (0, -1), have x = 0.
+        self.inner.x == Fq::ZERO
+    }
+
     fn generator() -> Self {
         Element::GENERATOR.into()
     }
